@@ -11,7 +11,7 @@
 From Coq Require Import List ZArith NArith Bool Lia.
 From Tink Require Import Bytes Wrap MldsaScalar MldsaScalarProofs MldsaScalarProofs2 MldsaTableProofs
   MldsaKernels MldsaKernelsProofs MldsaPoly Mldsa
-  MldsaPackProofs MldsaHintProofs MldsaUseHintProofs MldsaNttProofs MldsaProofs MldsaExamples.
+  MldsaPackProofs MldsaHintProofs MldsaUseHintProofs MldsaLowBitsProofs MldsaNttProofs MldsaProofs MldsaExamples.
 Import ListNotations.
 Local Open Scope Z_scope.
 
@@ -124,14 +124,30 @@ Example C10_useHint_makeHint_inhabited :
   mldsa_rZq_makeHint 8380416 95232 190464 = Some 0.
 Proof. exact ex_useHint_makeHint_inhabited. Qed.
 
+(* The second rounding lemma of signing: if |s mod± q| <= b and the centred
+   norm of r.lowBits(gamma2) is < gamma2 - b then (r + s).highBits(gamma2) =
+   r.highBits(gamma2) — the reason for the check ||r0|| < gamma2 - beta. *)
+Theorem C10_highBits_stable : forall r s g b r0,
+  valid_gamma2 g -> 0 <= r < q -> 0 <= s < q -> 0 <= b -> Z.abs (cmod s q) <= b ->
+  mldsa_rZq_lowBits r g = Some r0 -> mldsa_rZq_centeredAbs r0 < g - b ->
+  mldsa_rZq_highBits (mldsa_rZq_add r s) g = mldsa_rZq_highBits r g.
+Proof. exact highBits_stable. Qed.
+Print Assumptions C10_highBits_stable.
+
 (* ------------------------------------------------------------------ *)
-(* 4. NTT (Algorithms 41/42): the inverse transform inverts the         *)
-(*    transform on every polynomial over Z_q                            *)
+(* 4. NTT (Algorithms 41/42): the two transforms are mutually inverse  *)
+(*    bijections of (Z_q)^256 and additive                              *)
 (* ------------------------------------------------------------------ *)
 Theorem C10_intt_ntt : forall p, length p = 256%nat -> Forall (fun c => 0 <= c < q) p ->
-  intt (ntt p) = p.
-Proof. exact intt_ntt. Qed.
+  intt (ntt p) = p /\ ntt (intt p) = p.
+Proof. intros p Hl Hc. exact (conj (intt_ntt p Hl Hc) (ntt_intt p Hl Hc)). Qed.
 Print Assumptions C10_intt_ntt.
+
+Theorem C10_ntt_additive : forall a b, length a = 256%nat -> length b = 256%nat ->
+  Forall (fun c => 0 <= c < q) a -> Forall (fun c => 0 <= c < q) b ->
+  ntt (padd a b) = padd (ntt a) (ntt b) /\ intt (padd a b) = padd (intt a) (intt b).
+Proof. intros a b La Lb Ca Cb. exact (conj (ntt_add a b La Lb Ca Cb) (intt_add a b La Lb Ca Cb)). Qed.
+Print Assumptions C10_ntt_additive.
 
 (* ------------------------------------------------------------------ *)
 (* 5. bit packing (Algorithms 16-19)                                   *)
